@@ -17,6 +17,10 @@ pub struct Cfg {
     pub latency: u64,
     /// the contacts advertise one more node towards which every send fails (host unreachable)
     pub unreachable_hearsay: bool,
+    /// announcing searches at this period (ms), with slightly varying phase
+    pub search_every_ms: Option<u64>,
+    /// every send_to takes this long
+    pub send_delay_ms: u64,
     pub rng_seed: u64,
 }
 
@@ -72,6 +76,17 @@ pub fn build(cfg: &Cfg) -> (Scenario, Vec<Box<dyn Peer>>) {
     let lat = cfg.latency;
     sc.link_latency = Arc::new(move |_, _| lat);
     sc.horizon_ms = cfg.minutes * 60_000;
+    sc.send_delay_ms = cfg.send_delay_ms;
+    if let Some(every) = cfg.search_every_ms {
+        let mut t = 7_000u64;
+        let mut j = 0u64;
+        while t < cfg.minutes * 60_000 {
+            sc.actions.push((crate::sim::When::At(t), crate::sim::Action::Search { node: 0, info_hash: InfoHash::sha1(format!("c18-{j}").as_bytes()), announce: true, tag: format!("s{j}") }));
+            // phases drift through the 6 s refresh period and the 5 s re-bootstrap period
+            t += every + (j % 7) * 190;
+            j += 1;
+        }
+    }
     sc.sample = vec![(0, 1000, 500)];
     (sc, peers)
 }
@@ -128,10 +143,13 @@ pub fn judge(cfg: &Cfg, res: &RunResult) -> Verdict {
         }
     }
     let max_queue = s.iter().map(|x| x.2).max().unwrap_or(0).max(res.max_timer_queue);
-    if max_queue > 4 {
+    // without searches: the refresh timer (+ slack); with searches: plus the per-query and end-game timers of
+    // the (at most two overlapping) lookups
+    let queue_bound = if cfg.search_every_ms.is_some() { 40 } else { 4 };
+    if max_queue > queue_bound {
         v.push((
             "timer-queue-grows".to_string(),
-            format!("timer queue reached {} pending checks with no search running; {:?}", max_queue, cfg),
+            format!("timer queue reached {} pending checks (bound {}); {:?}", max_queue, queue_bound, cfg),
         ));
     }
     if !res.panics.is_empty() {
@@ -141,7 +159,7 @@ pub fn judge(cfg: &Cfg, res: &RunResult) -> Verdict {
 }
 
 fn cfg_json(c: &Cfg) -> Value {
-    json!({"contacts":c.contacts,"outages":c.outages,"minutes":c.minutes,"latency":c.latency,"unreachable_hearsay":c.unreachable_hearsay,"rng_seed":c.rng_seed})
+    json!({"contacts":c.contacts,"outages":c.outages,"minutes":c.minutes,"latency":c.latency,"unreachable_hearsay":c.unreachable_hearsay,"search_every_ms":c.search_every_ms,"send_delay_ms":c.send_delay_ms,"rng_seed":c.rng_seed})
 }
 
 pub fn replay(v: &Value) -> i32 {
@@ -152,6 +170,8 @@ pub fn replay(v: &Value) -> i32 {
         minutes: c["minutes"].as_u64().unwrap_or(10),
         latency: c["latency"].as_u64().unwrap_or(20),
         unreachable_hearsay: c["unreachable_hearsay"].as_bool().unwrap_or(false),
+        search_every_ms: c["search_every_ms"].as_u64(),
+        send_delay_ms: c["send_delay_ms"].as_u64().unwrap_or(0),
         rng_seed: c["rng_seed"].as_u64().unwrap_or(1),
     };
     let (sc, peers) = build(&cfg);
@@ -179,9 +199,9 @@ pub fn run(tier: Tier) -> Report {
                     if minutes >= 360 && latency != 20 {
                         continue;
                     }
-                    cfgs.push(Cfg { contacts, outages, minutes, latency, unreachable_hearsay: false, rng_seed: 1 + seed });
+                    cfgs.push(Cfg { contacts, outages, minutes, latency, unreachable_hearsay: false, search_every_ms: None, send_delay_ms: 0, rng_seed: 1 + seed });
                     if latency == 20 {
-                        cfgs.push(Cfg { contacts, outages, minutes, latency, unreachable_hearsay: true, rng_seed: 1 + seed });
+                        cfgs.push(Cfg { contacts, outages, minutes, latency, unreachable_hearsay: true, search_every_ms: None, send_delay_ms: 0, rng_seed: 1 + seed });
                     }
                 }
             }
@@ -189,9 +209,16 @@ pub fn run(tier: Tier) -> Report {
     }
     if tier == Tier::Quick {
         for contacts in 1..=3usize {
-            cfgs.push(Cfg { contacts, outages: false, minutes: 60, latency: 20, unreachable_hearsay: contacts == 2, rng_seed: 1 + seed });
+            cfgs.push(Cfg { contacts, outages: false, minutes: 60, latency: 20, unreachable_hearsay: contacts == 2, search_every_ms: None, send_delay_ms: 0, rng_seed: 1 + seed });
         }
-        cfgs.push(Cfg { contacts: 1, outages: true, minutes: 70, latency: 20, unreachable_hearsay: false, rng_seed: 1 + seed });
+        cfgs.push(Cfg { contacts: 1, outages: true, minutes: 70, latency: 20, unreachable_hearsay: false, search_every_ms: None, send_delay_ms: 0, rng_seed: 1 + seed });
+    }
+    // user activity: announcing searches every ~3 s, sends that take time (handler awaits inside a lookup
+    // while bootstrap completions arrive)
+    for contacts in 1..=2usize {
+        for (every, delay) in [(2_600u64, 300u64), (3_100, 0), (2_600, 40)] {
+            cfgs.push(Cfg { contacts, outages: false, minutes: tier.pick(20, 60), latency: 20, unreachable_hearsay: contacts == 1, search_every_ms: Some(every), send_delay_ms: delay, rng_seed: 1 + seed });
+        }
     }
     let outs = par_map(&cfgs, |_, cfg| {
         let (sc, peers) = build(cfg);
